@@ -267,6 +267,17 @@ static void end_truth(const ALib& L, Built& b, const std::vector<uint8_t>& file,
                 }
                 outl.clear();
             }
+            for (uint64_t i = 0; i < c->robustpath_array.count; i++) {
+                if (c->robustpath_array[i]->simple_path) continue;
+                Array<Polygon*> outl = {};
+                c->robustpath_array[i]->to_polygons(false, 0, outl);
+                for (uint64_t q = 0; q < outl.count; q++) {
+                    pmax = std::max<uint64_t>(pmax, outl[q]->point_array.count);
+                    outl[q]->clear();
+                    free_allocation(outl[q]);
+                }
+                outl.clear();
+            }
         }
         if (lib_uint["S_POLYGON_MAX_VERTICES"] != pmax) t.fail("S_POLYGON_MAX_VERTICES " + std::to_string(lib_uint["S_POLYGON_MAX_VERTICES"]) + " != " + std::to_string(pmax));
         if (lib_uint["S_POLYGON_MAX_VERTICES"] < sc.max_polygon_vertices) t.fail("S_POLYGON_MAX_VERTICES below a POLYGON record of the file");
